@@ -36,6 +36,8 @@ verus! {
 //%include spec/shape.rs
 //%include spec/syntax.rs
 //%include spec/pratt.rs
+//%include spec/closed_defs.rs
+//%include spec/closed.rs
 //%item parser.rs parse pub\(crate\) fn parse\b
 //%item parser.rs parse_expr fn parse_expr
 //%item parser.rs parse_led fn parse_led
